@@ -41,6 +41,19 @@ Fn(fn, args) ==
        [] fn = "CONCATENATE" -> Concat(args)      \* (scalars only in the cases below)
        [] fn = "TEXTJOIN" -> TextJoin(s[1], s[2], SubSeq(args, 3, n))
 
+\* an element-wise function given arrays: the scalar rule at every position of the
+\* stretched shape (C05's lifting), each element seen as a directly typed value or as
+\* one referenced cell
+ArgRows(a) == IF a.f = "v" THEN 1 ELSE Rows(a.v)
+ArgCols(a) == IF a.f = "v" THEN 1 ELSE Cols(a.v)
+ElemArg(a, i, j) == IF a.f = "v" THEN a
+                    ELSE IF a.f = "r" THEN Cell1(Elem(a.v, i, j)) ELSE Direct(Elem(a.v, i, j))
+LiftFn(fn, args) ==
+  LET R == MaxOf([k \in 1..Len(args) |-> ArgRows(args[k])])
+      C == MaxOf([k \in 1..Len(args) |-> ArgCols(args[k])])
+      f(i, j) == Fn(fn, [k \in 1..Len(args) |-> ElemArg(args[k], i, j)])
+  IN Matrix(R, C, f)
+
 -----------------------------------------------------------------------------
 \* ---- pools ----------------------------------------------------------------------
 S(str) == Txt(str)
@@ -225,7 +238,33 @@ ConcatCases == {Case("CONCAT", a) : a \in Seqs1(JoinArgs) \cup Seqs2(JoinArgs)}
 TextCases == Text1Cases \cup LeftCases \cup MidCases \cup FindCases \cup ReplaceCases \cup SubstCases
              \cup ValueCases \cup ConcatCases
 
-Cases == CASE Family = "agg" -> AggCases \cup KthCases \cup SpCases
+\* -- element-wise functions over arrays
+LRow == Lit(<<<<Num(3, 2), Num(-5, 2)>>>>)
+LCol == Ref(<<<<IntV(4)>>, <<tX>>>>)
+LSq == Ref(<<<<IntV(9), Blank>>, <<T, NAe>>>>)
+LTxt == Lit(<<<<tABC, sAbCd>>>>)
+LTxtCol == Ref(<<<<tA>>, <<IntV(12)>>, <<Blank>>>>)
+LArrs == {LRow, LCol, LSq}
+LiftCases ==
+  {Case(fn, <<a>>) : fn \in {"ABS", "INT", "SQRT", "SIGN", "EVEN", "NOT", "ISNUMBER", "ISTEXT", "ISBLANK",
+                             "ISERROR", "LEN", "UPPER", "TRIM", "VALUE"}, a \in LArrs \cup {LTxt, LTxtCol}}
+  \cup {Case(fn, <<a, D(IntV(1))>>) : fn \in {"ROUND", "ROUNDDOWN", "MOD", "POWER", "LEFT", "RIGHT"},
+                                      a \in LArrs \cup {LTxt, LTxtCol}}
+  \cup {Case(fn, <<D(Num(1235, 100)), Lit(<<<<IntV(1), IntV(0), IntV(-1)>>>>)>>) : fn \in {"ROUND", "ROUNDUP", "TRUNC"}}
+  \cup {Case("MOD", <<Lit(<<<<IntV(5), IntV(7), IntV(-7)>>>>), Ref(<<<<IntV(2)>>, <<IntV(-3)>>>>)>>),
+        Case("POWER", <<Ref(<<<<IntV(2)>>, <<IntV(0)>>>>), Lit(<<<<IntV(2), IntV(-1), IntV(0)>>>>)>>),
+        Case("MID", <<LTxt, Lit(<<<<IntV(1)>>, <<IntV(2)>>>>), D(IntV(2))>>),
+        Case("FIND", <<D(tA), LTxt>>), Case("SEARCH", <<Lit(<<<<tA, S(<<63, 99>>)>>>>), D(tABC)>>),
+        Case("SUBSTITUTE", <<LTxt, D(tA), Lit(<<<<tX>>, <<tEmpty>>>>)>>),
+        Case("REPLACE", <<LTxt, D(IntV(2)), Lit(<<<<IntV(0), IntV(1)>>>>), D(tX)>>),
+        Case("CONCATENATE", <<LTxt, D(tX), LTxtCol>>)}
+  \cup {Case("IF", <<c, a, b>>) : c \in {LSq, Lit(<<<<T, F>>>>), Ref(<<<<IntV(0)>>, <<IntV(2)>>>>)},
+                                   a \in {D(IntV(1)), LRow}, b \in {D(tX), LCol}}
+  \cup {Case(fn, <<a, alt>>) : fn \in {"IFERROR", "IFNA"}, a \in {LSq, Lit(<<<<D0, NAe>>>>)},
+                               alt \in {D(IntV(0)), LRow}}
+
+Cases == CASE Family = "lift" -> LiftCases
+           [] Family = "agg" -> AggCases \cup KthCases \cup SpCases
            [] Family = "logic" -> LogicCases \cup InfoCases
            [] Family = "math" -> Math1Cases \cup RoundCases \cup ModCases \cup CfCases \cup PowCases \cup LogCases
            [] Family = "text" -> TextCases
@@ -235,14 +274,26 @@ VARIABLES c, out
 vars == <<c, out>>
 Pending == [k |-> "pending"]
 Init == c \in Cases /\ out = Pending
-Apply == out = Pending /\ out' = Fn(c.fn, c.args) /\ UNCHANGED c
+Apply == /\ out = Pending
+         /\ out' = IF Family = "lift" THEN LiftFn(c.fn, c.args) ELSE Fn(c.fn, c.args)
+         /\ UNCHANGED c
 Next == Apply
 Spec == Init /\ [][Next]_vars
-Done == out # Pending
+DoneAny == out # Pending
+Done == out # Pending /\ Family # "lift"
 
 \* ---- theorems ------------------------------------------------------------------------
 IsVal(v) == v.k \in {"n", "t", "b", "e", "approx", "any", "anyerr"}
-WellFormed == Done => IsVal(out)
+WellFormed == DoneAny => IF Family = "lift"
+                      THEN out.k = "a" /\ \A i \in 1..Rows(out) : \A j \in 1..Cols(out) : IsVal(out.rows[i][j])
+                      ELSE IsVal(out)
+\* the lifted result has the stretched shape, and a scalar argument may as well be an array
+\* that repeats it
+LiftShape == (DoneAny /\ Family = "lift") =>
+   /\ Rows(out) = MaxOf([k \in 1..Len(c.args) |-> ArgRows(c.args[k])])
+   /\ Cols(out) = MaxOf([k \in 1..Len(c.args) |-> ArgCols(c.args[k])])
+   /\ \A k \in 1..Len(c.args) : c.args[k].f = "v" =>
+         LiftFn(c.fn, [c.args EXCEPT ![k] = Lit(<<<<c.args[k].v, c.args[k].v>>>>)]).rows[1][1] = out.rows[1][1]
 
 \* aggregations do not depend on the order of their arguments
 OrderInvariant ==
@@ -374,5 +425,5 @@ TextJoinLaw ==     \* with an empty delimiter and nothing ignored TEXTJOIN is CO
   (Done /\ c.fn = "TEXTJOIN" /\ Scalar(c.args[1]) = tEmpty /\ Scalar(c.args[2]) = F) =>
      out = Fn("CONCAT", SubSeq(c.args, 3, Len(c.args)))
 
-Obl == (EmitObl /\ Done) => PrintT("OBL " \o ToJson([fn |-> c.fn, args |-> c.args, exp |-> out]))
+Obl == (EmitObl /\ DoneAny) => PrintT("OBL " \o ToJson([fn |-> c.fn, args |-> c.args, exp |-> out]))
 =============================================================================
